@@ -3,4 +3,7 @@ import Anysystem.Props.C18
 #print axioms Anysystem.C18_decode_exact
 #print axioms Anysystem.C18_negative_delay_raises
 #print axioms Anysystem.C18_failing_call_fails_handler
+#print axioms Anysystem.C18_handler_fails_iff
+#print axioms Anysystem.C18_accepted_handler_relays
+#print axioms Anysystem.C18_canon_idempotent
 #print axioms Anysystem.run_lists
